@@ -75,13 +75,12 @@ pub struct WordCase {
 
 pub type Prep<B> = FheUintPrepared<DeviceBuf<B>, u32, B>;
 
-pub fn apply_op<B: FullBackend>(c: &TestContext<CGGI, B>, op: &str, res: &mut FheUint<Vec<u8>, u32>, a: &Prep<B>, b: &Prep<B>, threads: usize, scratch: &mut ScratchOwned<B>)
+pub fn apply_op_s<B: FullBackend>(c: &TestContext<CGGI, B>, op: &str, res: &mut FheUint<Vec<u8>, u32>, a: &Prep<B>, b: &Prep<B>, threads: usize, s: &mut poulpy_hal::layouts::Scratch<B>)
 where
     ScratchOwned<B>: ScratchOwnedAlloc<B> + ScratchOwnedBorrow<B>,
 {
     let m = &c.module;
     let k = &c.bdd_key;
-    let s = scratch.borrow();
     if threads <= 1 {
         match op {
             "add" => res.add(m, a, b, k, s),
@@ -110,6 +109,49 @@ where
             "or" => res.or_multi_thread(threads, m, a, b, k, s),
             "xor" => res.xor_multi_thread(threads, m, a, b, k, s),
             "identity" => res.identity_multi_thread(threads, m, a, k, s),
+            _ => panic!("harness: unknown op {op}"),
+        }
+    }
+}
+
+pub fn apply_op<B: FullBackend>(c: &TestContext<CGGI, B>, op: &str, res: &mut FheUint<Vec<u8>, u32>, a: &Prep<B>, b: &Prep<B>, threads: usize, scratch: &mut ScratchOwned<B>)
+where
+    ScratchOwned<B>: ScratchOwnedAlloc<B> + ScratchOwnedBorrow<B>,
+{
+    apply_op_s(c, op, res, a, b, threads, scratch.borrow())
+}
+
+/// the size query that belongs to `apply_op_s(op, threads)`
+pub fn op_tmp_bytes<B: FullBackend>(c: &TestContext<CGGI, B>, op: &str, res: &FheUint<Vec<u8>, u32>, threads: usize) -> usize {
+    let m = &c.module;
+    let k = &c.bdd_key;
+    let (gl, gg) = (c.glwe_infos(), c.ggsw_infos());
+    if threads <= 1 {
+        match op {
+            "add" => res.add_tmp_bytes(m, &gl, &gg, k),
+            "sub" => res.sub_tmp_bytes(m, &gl, &gg, k),
+            "sll" => res.sll_tmp_bytes(m, &gl, &gg, k),
+            "srl" => res.srl_tmp_bytes(m, &gl, &gg, k),
+            "sra" => res.sra_tmp_bytes(m, &gl, &gg, k),
+            "slt" => res.slt_tmp_bytes(m, &gl, &gg, k),
+            "sltu" => res.sltu_tmp_bytes(m, &gl, &gg, k),
+            "and" => res.and_tmp_bytes(m, &gl, &gg, k),
+            "or" => res.or_tmp_bytes(m, &gl, &gg, k),
+            "xor" => res.xor_tmp_bytes(m, &gl, &gg, k),
+            _ => panic!("harness: unknown op {op}"),
+        }
+    } else {
+        match op {
+            "add" => res.add_multi_thread_tmp_bytes(m, threads, &gl, &gg, k),
+            "sub" => res.sub_multi_thread_tmp_bytes(m, threads, &gl, &gg, k),
+            "sll" => res.sll_multi_thread_tmp_bytes(m, threads, &gl, &gg, k),
+            "srl" => res.srl_multi_thread_tmp_bytes(m, threads, &gl, &gg, k),
+            "sra" => res.sra_multi_thread_tmp_bytes(m, threads, &gl, &gg, k),
+            "slt" => res.slt_multi_thread_tmp_bytes(m, threads, &gl, &gg, k),
+            "sltu" => res.sltu_multi_thread_tmp_bytes(m, threads, &gl, &gg, k),
+            "and" => res.and_multi_thread_tmp_bytes(m, threads, &gl, &gg, k),
+            "or" => res.or_multi_thread_tmp_bytes(m, threads, &gl, &gg, k),
+            "xor" => res.xor_multi_thread_tmp_bytes(m, threads, &gl, &gg, k),
             _ => panic!("harness: unknown op {op}"),
         }
     }
